@@ -430,6 +430,19 @@ def entry_cases(jobs):
             Host = type("Host", (), {"f": f, "__module__": "vfworld"})
             host = Host()
         dflt_owner = {id(v): k for k, v in bw.dflt.items()}
+        # beyond the listed properties: what inspect.signature() reports for the function
+        import inspect
+
+        sig = None
+        sigrec = None
+        if build_err is None:
+            try:
+                sig = inspect.signature(f)
+                kinds = {inspect.Parameter.POSITIONAL_ONLY: "po", inspect.Parameter.POSITIONAL_OR_KEYWORD: "pk", inspect.Parameter.KEYWORD_ONLY: "kw"}
+                sigrec = [{"name": p.name, "kind": kinds.get(p.kind, "other"), "req": p.default is inspect.Parameter.empty}
+                          for p in sig.parameters.values() if not (is_meth and p.name == "self")]
+            except Exception:  # noqa: no signature available (e.g. the analyser refuses the method set)
+                sig = None
         for sh in job["shapes"]:
             obs = {"kind": "", "m": "", "bind": [], "ret": "", "slf": "ok"}
             if build_err is not None:
@@ -496,9 +509,21 @@ def entry_cases(jobs):
                 obs["err"] = "returned without entering a method body"
             if exc is not None:
                 exc.__traceback__ = None
-            steps.append({"shape": sh, "obs": obs})
+            st_ = {"shape": sh, "obs": obs}
+            if sig is not None:
+                try:
+                    sig.bind(*([host] if host is not None else []), *args, **kw)
+                    st_["bindok"] = True
+                except TypeError:
+                    st_["bindok"] = False
+                except Exception:  # noqa
+                    pass
+            steps.append(st_)
         bw.cleanup()
-        out.append({"id": job["id"], "world": w, "steps": steps})
+        rec_ = {"id": job["id"], "world": w, "steps": steps}
+        if sigrec is not None:
+            rec_["sig"] = sigrec
+        out.append(rec_)
     return out
 
 
